@@ -7,6 +7,7 @@ import (
 	"github.com/cockroachdb/redact"
 	"sort"
 	"strings"
+	"sync/atomic"
 
 	"github.com/cockroachdb/errors"
 	"github.com/cockroachdb/errors/errbase"
@@ -356,4 +357,13 @@ func DropPayloads(b []byte) (out []byte, n int) {
 		}
 	})
 	return Marshal(enc), n
+}
+
+// Warnings counts what the library reports through its warning sink (a payload it could not
+// marshal or unmarshal, ...): a warning is an event, not a failure. The default sink logs a
+// verbose rendering of the error for every warning.
+var Warnings int64
+
+func init() {
+	errors.SetWarningFn(func(context.Context, string, ...interface{}) { atomic.AddInt64(&Warnings, 1) })
 }
